@@ -87,7 +87,10 @@ Spec == Init /\ [][Next]_vars
 
 NotAccepted == l <= Len(TraceLog)
 ASSUME TLCSet(1, 0)
-TrackL == TLCSet(1, IF l > TLCGet(1) THEN l ELSE TLCGet(1))
+\* once some path has consumed the whole log the search is over: every further
+\* state is pruned (depth-first queue, so the first complete path ends the run)
+TrackL == /\ TLCSet(1, IF l > TLCGet(1) THEN l ELSE TLCGet(1))
+          /\ TLCGet(1) <= Len(TraceLog)
 PrintMaxL == PrintT(<<"MAXL", TLCGet(1)>>)
 
 \* ---- Layer-A properties along the history ----
